@@ -2665,9 +2665,9 @@ int bufr_load_csv_tableD( BUFR_Tables *tables, const char *filename )
          char buf[1024];
 
          if (tbls->tableD != NULL)
-            sprintf( buf, _("Info:  Loaded Table D: %s  \n"), filename );
+            snprintf( buf, sizeof(buf), _("Info:  Loaded Table D: %s  \n"), filename );
 	 else
-            sprintf( buf, _("Error:  Unable to load CSV Table D: %s  \n"), filename );
+            snprintf( buf, sizeof(buf), _("Error:  Unable to load CSV Table D: %s  \n"), filename );
          bufr_print_debug( buf );
          }
       }
@@ -2680,7 +2680,7 @@ int bufr_load_csv_tableD( BUFR_Tables *tables, const char *filename )
          {
          char buf[1024];
 
-         sprintf( buf, _("Info:  Merged Table D: %s\n"), filename );
+         snprintf( buf, sizeof(buf), _("Info:  Merged Table D: %s\n"), filename );
          bufr_print_debug( buf );
          }
       }
